@@ -8,6 +8,7 @@ import (
 	"strings"
 	"unicode"
 	"unicode/utf16"
+	"unicode/utf8"
 	"unsafe"
 
 	"github.com/goccy/go-json/internal/errors"
@@ -25,6 +26,7 @@ type structFieldSet struct {
 
 type structDecoder struct {
 	fieldMap           map[string]*structFieldSet
+	foldMap            map[string]*structFieldSet // lower-cased name -> first field in declaration order
 	fieldUniqueNameNum int
 	stringDecoder      *stringDecoder
 	structName         string
@@ -49,6 +51,35 @@ func init() {
 		}
 		largeToSmallTable[i] = byte(c)
 	}
+}
+
+// foldName returns the canonical case folding of a field name: every rune is replaced by the
+// smallest rune of its simple-folding orbit, as encoding/json does for case-insensitive matching
+// (so "K", "k" and the Kelvin sign, or "S", "s" and "ſ", fall together).
+func foldName(s string) string {
+	ascii := true
+	for i := 0; i < len(s); i++ {
+		if s[i] >= utf8.RuneSelf || ('a' <= s[i] && s[i] <= 'z') {
+			ascii = false
+			break
+		}
+	}
+	if ascii {
+		return s
+	}
+	out := make([]byte, 0, len(s))
+	for _, r := range s {
+		for {
+			r2 := unicode.SimpleFold(r)
+			if r2 <= r {
+				r = r2
+				break
+			}
+			r = r2
+		}
+		out = utf8.AppendRune(out, r)
+	}
+	return string(out)
 }
 
 func toASCIILower(s string) string {
@@ -97,6 +128,13 @@ func (d *structDecoder) tryOptimize() {
 	fieldMap := map[string]*structFieldSet{}
 	conflicted := map[string]struct{}{}
 	for k, v := range d.fieldMap {
+		for i := 0; i < len(k); i++ {
+			if k[i] >= utf8.RuneSelf {
+				// the bitmap matcher folds ASCII letters only; other names need the full lower-casing
+				d.isTriedOptimize = true
+				return
+			}
+		}
 		key := strings.ToLower(k)
 		if key != k {
 			if key != toASCIILower(k) {
@@ -377,8 +415,8 @@ func decodeKey(d *structDecoder, buf []byte, cursor int64) (int64, *structFieldS
 	k := *(*string)(unsafe.Pointer(&key))
 	field, exists := d.fieldMap[k]
 	if !exists {
-		// no exact match: field names match case-insensitively (the map holds the lower-cased names)
-		field, exists = d.fieldMap[strings.ToLower(k)]
+		// no exact match: field names match case-insensitively
+		field, exists = d.foldMap[foldName(k)]
 	}
 	if !exists {
 		return cursor, nil, nil
@@ -565,7 +603,8 @@ func decodeKeyCharByUnicodeRuneStream(s *Stream) ([]byte, error) {
 	const defaultOffset = 4
 	const surrogateOffset = 6
 
-	if s.cursor+defaultOffset >= s.length {
+	for s.cursor+defaultOffset >= s.length {
+		// a reader may deliver the four digits one byte at a time
 		if !s.read() {
 			return nil, errors.ErrInvalidCharacter(s.char(), "escaped unicode char", s.totalOffset())
 		}
@@ -574,8 +613,7 @@ func decodeKeyCharByUnicodeRuneStream(s *Stream) ([]byte, error) {
 	r := unicodeToRune(s.buf[s.cursor : s.cursor+defaultOffset])
 	if utf16.IsSurrogate(r) {
 		s.cursor += defaultOffset
-		if s.cursor+surrogateOffset >= s.length {
-			s.read()
+		for s.cursor+surrogateOffset >= s.length && s.read() {
 		}
 		if s.cursor+surrogateOffset >= s.length || s.buf[s.cursor] != '\\' || s.buf[s.cursor+1] != 'u' {
 			s.cursor += defaultOffset - 1
@@ -643,7 +681,8 @@ func decodeKeyNotFoundStream(s *Stream, start int64) (*structFieldSet, string, e
 				if !s.read() {
 					return nil, "", errors.ErrUnexpectedEndOfJSON("string", s.totalOffset())
 				}
-				buf, cursor, p = s.statForRetry()
+				// stay on the escaped character: the loop steps over it without looking at it
+				buf, cursor, p = s.stat()
 			}
 		case nul:
 			s.cursor = cursor
@@ -663,8 +702,8 @@ func decodeKeyStream(d *structDecoder, s *Stream) (*structFieldSet, string, erro
 	k := *(*string)(unsafe.Pointer(&key))
 	field, exists := d.fieldMap[k]
 	if !exists {
-		// no exact match: field names match case-insensitively (the map holds the lower-cased names)
-		field = d.fieldMap[strings.ToLower(k)]
+		// no exact match: field names match case-insensitively
+		field = d.foldMap[foldName(k)]
 	}
 	return field, k, nil
 }
